@@ -238,3 +238,19 @@ def resume_cursor_violations(data, c, v, f, tdm, na, nexc, step_offset, steps):
         if w2.i_na[0] != rows(na):
             bad.append("nonadiabatic cursor %r, rows already written %d" % (w2.i_na[0], rows(na)))
     return bad
+
+
+def config_violations(pr, ck, xyz, data, c, v, f, na, tdm):
+    """OutputConfig.from_dict + accessors: every cadence the engines read must be the integer the user wrote (zero included)"""
+    import seqm.MolecularDynamics as MD
+
+    cfg = MD.OutputConfig.from_dict({"molid": [0], "prefix": "x", "print every": pr, "checkpoint every": ck, "xyz": xyz, "h5": {"data": data, "coordinates": c, "velocities": v, "forces": f, "nonadiabatic": na, "transition_density_matrices": tdm}})
+    cad = cfg.get_h5_cadence()
+    got = {"print every": cfg.print_every, "checkpoint every": cfg.checkpoint_every, "xyz": cfg.xyz_every, "data": cfg.get_h5_data_every(), "coordinates": cad["coordinates"], "velocities": cad["velocities"], "forces": cad["forces"], "nonadiabatic": cfg.get_h5_write_nonadiabatic(), "transition_density_matrices": cfg.get_h5_write_tdm()}
+    want = {"print every": pr, "checkpoint every": ck, "xyz": xyz, "data": data, "coordinates": c, "velocities": v, "forces": f, "nonadiabatic": na, "transition_density_matrices": tdm}
+    bad = ["%s: requested %r, configured %r" % (k, want[k], got[k]) for k in want if got[k] != want[k]]
+    pos = [x for x in (c, v, f) if x > 0]
+    gate = min(pos) if pos else None
+    if cfg.h5_vectors_every != gate and not (gate is None and not cfg.h5_vectors_every):
+        bad.append("vector gate %r, smallest positive vector cadence %r" % (cfg.h5_vectors_every, gate))
+    return bad
